@@ -13,8 +13,17 @@ FONTSPEC := kind vertical base ndiffs (code glyphindex)* hasToU ntou (cid nu u*)
 PAGE     := nwalk n* nfonts FONTREF* nreads n* nshows (fontidx ncodes code*)* ngops (code v)*
              code: 0 re 1 m 2 l 3 h 4 paint 5 n 6 q 7 Q 8 w(v) 9 operand(v)
 FONTREF  := 0 objid | 1 FONTSPEC
+
+Process-wide state and per-page interpreter state (Model/ProcGlobals.lean):
+  ginit  nl lit* nk kw*                       globals := G0 with these names already interned (insertion order)
+  gcall  npages GPAGE*                        one call: a fresh interpreter renders the pages in order
+  gmetrics key                                FONT_METRICS lookup
+GPAGE    := ncs (key kind arg)* nops (code a b)*     kind 0 named(arg) 1 [/ICCBased N=arg] 2 [/DeviceN arg names]
+             code 0 Tc 1 Tw 2 Tz 3 TL 4 Ts 5 Tr (b-1000 = value) 6 Tf(a = name, b-1000 = size) 7 q 8 Q 9 cs(a) 10 CS(a)
+                  11 stray name(a) 12 unknown operator(a)
 -/
 import PdfVerif.Model.ProcessEnc
+import PdfVerif.Model.ProcGlobals
 
 open PdfVerif PdfVerif.Process
 
@@ -124,6 +133,49 @@ structure DState where
   world : World
   docs : List (Nat × DocSpec)
   st : State
+  g : ProcGlobals.Globals := ProcGlobals.G0 [] []
+
+namespace G
+open PdfVerif.ProcGlobals
+
+def pTriple : P (Nat × Nat × Nat) := pPair pNat (pPair pNat pNat)
+
+def pGPage : P GPage := fun ts =>
+  match pList pTriple ts with
+  | none => none
+  | some (cs, ts1) =>
+  match pList pTriple ts1 with
+  | none => none
+  | some (ops, ts2) =>
+    let val (b : Nat) : Int := (b : Int) - 1000
+    let cs' := cs.map (fun e => (e.1, match e.2.1 with
+      | 0 => CsSpec.named e.2.2 | 1 => CsSpec.icc e.2.2 | _ => CsSpec.devicen e.2.2))
+    let ops' := ops.filterMap (fun e => match e.1 with
+      | 0 => some (TOp.Tc (val e.2.2)) | 1 => some (TOp.Tw (val e.2.2)) | 2 => some (TOp.Tz (val e.2.2))
+      | 3 => some (TOp.TL (val e.2.2)) | 4 => some (TOp.Ts (val e.2.2)) | 5 => some (TOp.Tr (val e.2.2))
+      | 6 => some (TOp.Tf e.2.1 (val e.2.2)) | 7 => some TOp.q | 8 => some TOp.Q
+      | 9 => some (TOp.cs e.2.1) | 10 => some (TOp.CS e.2.1) | 11 => some (TOp.lit e.2.1)
+      | 12 => some (TOp.unknown e.2.1) | _ => none)
+    if ops'.length != ops.length then none else some ({ cs := cs', ops := ops' }, ts2)
+
+def showCS (c : Option CS) : String :=
+  match c with
+  | some c => toString c.1 ++ ":" ++ toString c.2
+  | none => "none"
+
+def showPState (s : PState) : String :=
+  "csmap=" ++ ",".intercalate (s.csmap.map (fun e => toString e.1 ++ ":" ++ toString e.2.1 ++ ":" ++ toString e.2.2)) ++
+  " scs=" ++ showCS s.scs ++ " ncs=" ++ showCS s.ncs ++
+  " ts=" ++ ",".intercalate ([s.ts.fontsize, s.ts.charspace, s.ts.wordspace, s.ts.scaling, s.ts.leading,
+      s.ts.render, s.ts.rise].map toString) ++
+  " gs=" ++ toString s.gstack.length ++ " err=" ++ (if s.err then "1" else "0")
+
+def showStatic (g : Globals) : String :=
+  "cs=" ++ ",".intercalate (g.colorspaces.map (fun e => toString e.1 ++ ":" ++ toString e.2.1 ++ ":" ++ toString e.2.2)) ++
+  " fm=" ++ toString ((g.metrics.foldl (fun acc e => acc + (e.1 + 1) * (e.2.1 * 1000003 + e.2.2)) 0) % 2305843009213693951) ++
+  " nfm=" ++ toString g.metrics.length ++ " strict=" ++ (if g.strict then "1" else "0")
+
+end G
 
 def mkWorld (cms ums : List Nat) : World :=
   { encInit := encTables,
@@ -241,6 +293,28 @@ def stepLine (ds : DState) (line : String) : DState × String :=
             | _ => "?"
           ({ ds with st := s1 }, os ++ " # " ++ showTables s1.tables)
         | _ => (ds, "bad-op")
+      | "ginit", _ =>
+        match pPair (pList pNat) (pList pNat) ns with
+        | some ((ls, ks), []) =>
+          let g := ProcGlobals.G0 ls ks
+          ({ ds with g := g }, "ok # " ++ G.showStatic g ++ " ts0=" ++
+            (G.showPState ProcGlobals.PState.init))
+        | _ => (ds, "bad-op")
+      | "gstrict", [v] => ({ ds with g := { ds.g with strict := v != 0 } }, "ok")
+      | "gcall", _ =>
+        match pList G.pGPage ns with
+        | some (pages, []) =>
+          let r := ProcGlobals.renderCall ds.g ProcGlobals.PState.init pages
+          let alone := pages.map (fun pg => (ProcGlobals.renderPage ds.g ProcGlobals.PState.init pg).1)
+          ({ ds with g := r.2 }, "states " ++ ";".intercalate (r.1.map G.showPState) ++
+            " # alone=" ++ (if alone == r.1 then "1" else "0") ++
+            " newlits=" ++ csv (r.2.lits.drop ds.g.lits.length) ++ " newkw=" ++ csv (r.2.kwds.drop ds.g.kwds.length) ++
+            " " ++ G.showStatic r.2)
+        | _ => (ds, "bad-op")
+      | "gmetrics", [k] =>
+        (ds, match ProcGlobals.metricsOf ds.g k with
+          | some d => "metrics " ++ toString d.1 ++ "," ++ toString d.2
+          | none => "metrics none")
       | _, _ => (ds, "bad-op")
 
 partial def loop (h : IO.FS.Stream) (out : IO.FS.Stream) (ds : DState) : IO Unit := do
